@@ -4,9 +4,9 @@
 cd /verif
 for p in "$@"; do
   rm -f baseline/$p.json
-  ./bin/gocv check --prop $p --strict --no-evidence --write-baseline >/dev/null 2>&1
+  ./bin/gocv check --prop $p --strict --no-evidence --no-bounded --write-baseline >/dev/null 2>&1
   cp baseline/$p.json /tmp/base1.$p.json
-  ./bin/gocv check --prop $p --strict --no-evidence --write-baseline >/dev/null 2>&1
+  ./bin/gocv check --prop $p --strict --no-evidence --no-bounded --write-baseline >/dev/null 2>&1
   python3 - "$p" <<'PY'
 import json,sys
 p=sys.argv[1]
